@@ -23,7 +23,7 @@ from sx import rt
 from sx.core import ctx
 
 BOUNDS = {"quick": {"A": "operand shapes over key pools per level [ab,ab], [a,a,ab] and [ab,a,a] (every key absent / leaf / nested), every frozenset iteration order", "B": "1..3 files from the pool {a.json, a-x.json, b.json, c.v2.json}, every glob order; dict documents over keys {a,b}: nested one level for 1-2 files, flat for 3 files; list documents and v2 documents of <= 2 entries x <= 2 codes"},
-          "thorough": {"A": "key pools per level [abc,ab], [ab,ab,ab], [a,a,a,ab]", "B": "as quick, single dict documents nested two levels"}}
+          "thorough": {"A": "key pools per level [abc,ab], [ab,ab,a], [a,ab,ab], [a,a,a,ab]", "B": "as quick, single dict documents nested two levels"}}
 STUBS = ["importlib.resources.files / Path.glob / Path.open replaced by in-memory stub paths (json.load runs for real on the generated text)", "frozenset iteration order = fork"]
 ASSUMPTIONS = ["leaves are opaque to the code under test (it never inspects them); the exhaustive part is the shape tree, the solver only decides leaf identity",
                "overlay files taking effect in validation is shown by C01..C11 reading the same files through the reference merge (SX_ROOT / edited data are re-read on every run)"]
@@ -40,7 +40,8 @@ def jobs(tier, seed):
             out.append({"kind": "A", "levels": ["abc", "ab"], "pin": p})
         for p in pins:
             for q in range(3):
-                out.append({"kind": "A", "levels": ["ab", "ab", "ab"], "pin": p + [q]})
+                out.append({"kind": "A", "levels": ["ab", "ab", "a"], "pin": p + [q]})
+        out.append({"kind": "A", "levels": ["a", "ab", "ab"], "pin": []})
         out.append({"kind": "A", "levels": ["a", "a", "a", "ab"], "pin": []})
     else:
         out.append({"kind": "A", "levels": ["ab", "ab"], "pin": []})
